@@ -60,7 +60,9 @@ def main(p):
         req = Dreq()
         first = Dreq.DESCRIPTOR.fields[0]
         setattr(req, first.name, {'GetA': 'as/1', 'GetB': 'bs/1', 'ListItems': 'as/1', 'RunLro': 'as/1', 'GetTree': 'trees/1',
-                                  'Touch': 'widgets/1'}.get(rpc, 'x/1'))
+                                  'Touch': 'widgets/1', 'StartX': 'p1', 'Get': 'op1', 'Other': 'others/1', 'Plain': 'plains/1'}.get(rpc, 'x/1'))
+        if rpc == 'Get':
+            req.project = 'p1'
         rec = {}
         try:
             if rpc == 'RunLro':
@@ -86,7 +88,10 @@ def main(p):
                     probelib.fill_all(rep, 3, 0)
                 ch.script = [rep.SerializeToString()]
                 r = getattr(client, mname)(request=probelib.native(req))
-                rec['returned'] = None if r is None else [type(r).__name__, probelib.wire_of(r).hex()]
+                try:
+                    rec['returned'] = None if r is None else [type(r).__name__, probelib.wire_of(r).hex()]
+                except BaseException:
+                    rec['returned'] = [type(r).__name__, 'not-a-message']
             rec['log'] = [dict(kind=e['kind'], path=e['path'], raw=e['raw'].hex(),
                                routing=[v for k, v in (e['metadata'] or []) if k == 'x-goog-request-params']) for e in ch.log]
         except BaseException as e:
